@@ -92,6 +92,12 @@ func ChunkMatchFromProto(p *webserverv1.ChunkMatch) ChunkMatch {
 
 	symbols := make([]*Symbol, len(p.GetSymbolInfo()))
 	for i, r := range p.GetSymbolInfo() {
+		// A repeated field cannot carry nil: the nil elements that api.go
+		// documents for ranges without symbol information arrive as empty
+		// messages.
+		if r.GetSym() == "" && r.GetKind() == "" && r.GetParent() == "" && r.GetParentKind() == "" {
+			continue
+		}
 		symbols[i] = SymbolFromProto(r)
 	}
 
@@ -201,9 +207,7 @@ func (lm *LineMatch) ToProto() *webserverv1.LineMatch {
 }
 
 func SymbolFromProto(p *webserverv1.SymbolInfo) *Symbol {
-	// a repeated field cannot carry nil: ChunkMatch.SymbolInfo's nil elements arrive
-	// as empty messages
-	if p == nil || (p.GetSym() == "" && p.GetKind() == "" && p.GetParent() == "" && p.GetParentKind() == "") {
+	if p == nil {
 		return nil
 	}
 
